@@ -130,3 +130,23 @@ Fixpoint all_ok (ops : list op) (s : st) : bool :=
   | [] => true
   | o :: ops' => match step_op o s with Ok s' => all_ok ops' s' | _ => false end
   end.
+
+(* K after every transaction of a history (for the E2 tie: compared with K computed from every
+   real database dump of the trace) *)
+Fixpoint K_violators_trace_gen {O : Type} (ap : st -> O -> st) (ops : list O) (s : st)
+  : list (list str) :=
+  match ops with
+  | [] => []
+  | o :: rest => let s' := ap s o in K_violators s' :: K_violators_trace_gen ap rest s'
+  end.
+Definition K_violators_trace (ops : list op) (s : st) : list (list str) :=
+  K_violators_trace_gen apply_op ops s.
+Definition strs_set_eqb (a b : list str) : bool :=
+  Nat.eqb (length a) (length b) && forallb (fun x => existsb (str_eqb x) b) a &&
+  forallb (fun x => existsb (str_eqb x) a) b.
+Fixpoint vtrace_eqb (a b : list (list str)) : bool :=
+  match a, b with
+  | [], [] => true
+  | x :: a', y :: b' => strs_set_eqb x y && vtrace_eqb a' b'
+  | _, _ => false
+  end.
